@@ -106,9 +106,11 @@ CLAIMED = {
             "compared on every run with the data-file names that occur in the source of the package, and stale files are planted under every name the code knows but does not write.",
             "Trusted: Lean kernel; json/pickle/h5py/sqlite3 internals (round trips sampled, not proved); harness/vp/deep.py defines observable state. Partial: different-run folders and RL scheduler are known findings.",
             "DESIGN.md §4 C04"),
-    "C06": ("Lean 4 proof (SQLite: failed save keeps the previous row, never a hybrid; five-file back-end: exact classification of crash prefixes, partial theorem + negation of the full statement with witness) + real SIGKILL at every system call of a real save, byte-level truncation, exception at every SQLite statement",
+    "C06": ("Lean 4 proof (SQLite: failed save keeps the previous row, never a hybrid; five-file back-end: exact classification of crash prefixes, partial theorem + negation of the full statement with witness) + real SIGKILL at every system call of a real save, byte-level truncation, exception (four classes/modes, one of them persistent) at every SQLite statement with the model run on the executed statements",
             "Proved in Lean: the transactional save leaves the previous checkpoint loadable whichever statement raises and the table is always the previous or the new row "
-            "(plus the witness of the repaired defect); for the five-file back-end the restore outcome is a function of per-file states with no cross-file check, hybrids are "
+            "(plus the witness of the repaired defect); generally (sqlite_transaction_atomic) any preamble outside a transaction followed by any statements that do not commit and a final commit "
+            "is atomic under a failure at any index, retried statements included - the hypothesis is checked against the statement list every real save executes, and the model runs exactly "
+            "the statements each failing save executed (executescript commits a pending transaction, as in SQLite); for the five-file back-end the restore outcome is a function of per-file states with no cross-file check, hybrids are "
             "exactly the crash prefixes with no rejected file that are neither all-old nor all-new — the full property is false there (json_full_statement_false) and the six "
             "hybrid shapes are known findings. The model is tied to the code by killing a real save at every syscall touching a checkpoint file (order of file operations "
             "re-derived from strace each run), by every byte-level prefix of the rewritten files, and by raising at every statement of the real SQLite save; each folder is "
